@@ -131,4 +131,11 @@ CHECKS = {
         "text": SMALL_SCOPE + "every in-domain document of grammar G (every heading followed by body text, no removal trigger) up to the block bound; the visible token sequence, each token's section path, list-item depth and reference must be unchanged by cleaning and tokens of tables with >=2 rows and columns must stay in a table.",
         "note": "documents are far below the cleaner's size heuristics by construction.",
     },
+    "C08": {
+        "engine": "input-enum", "category": "model_checking", "design_ref": "DESIGN.md §2 C08",
+        "technique": "bounded-exhaustive enumeration of stored collections (block alphabet x article/chapter structures) through the whole pipeline, tokens read back from the PDF text / ODF package",
+        "text": SMALL_SCOPE + "collections are written with the fetcher's FsOutput, zipped and re-opened with make_wiki: single articles B^1 and B^2 over an 18-entry block alphabet (grammar blocks, template call resolved from the archive, small and large images as thumbnail/inline/gallery/table cell, each use with its own caption), "
+                "two-article books B x B with and without chapter, three- and four-article books over all cyclic selections; rendered by the rl writer entry point (PDF text must contain every token), the odf entry point (package opens, XML parses, odflint clean) and the rl single-article test mode.",
+        "note": "ordinary content only; pdftk/pdfsam are absent, so merging the table of contents degrades to its logged warning; ODF completeness is counted, not judged (the statement asks for well-formed, lint-clean ODF).",
+    },
 }
